@@ -128,6 +128,8 @@ class Walk:
         self.items = []          # ("get", G) | ("bytes", n) | ("repeat", [getters], guard)
         self.bound = {}          # name -> index in items
         self.guards = {}         # count name -> divisor
+        self.tainted = set()     # names / attribute chains computed from the peer message
+        self.loops_ok = set()    # For nodes turned into IRepeat
         self.complete = True     # False when the walk stopped at a data-dependent statement
         self.stopped = False
         self.where = "%s:%s.%s" % (ckey[0], ckey[1], fn.name)
@@ -263,6 +265,30 @@ class Walk:
             return None
         return t.left.id, r.right.value
 
+    def is_tainted(self, node):
+        for n in ast.walk(node):
+            if isinstance(n, ast.Name) and (n.id == self.m or n.id in self.tainted):
+                return True
+            if isinstance(n, ast.Attribute) and ast.unparse(n) in self.tainted:
+                return True
+        return False
+
+    def taint_targets(self, s):
+        if isinstance(s, ast.Assign):
+            value, targets = s.value, s.targets
+        elif isinstance(s, (ast.AugAssign, ast.AnnAssign)) and s.value is not None:
+            value, targets = s.value, [s.target]
+        else:
+            return
+        if not self.is_tainted(value):
+            return
+        for t in targets:
+            for n in ast.walk(t):
+                if isinstance(n, ast.Name) and isinstance(n.ctx, ast.Store):
+                    self.tainted.add(n.id)
+                elif isinstance(n, ast.Attribute) and isinstance(n.ctx, ast.Store):
+                    self.tainted.add(ast.unparse(n))
+
     def stop(self, complete):
         self.stopped = True
         self.complete = self.complete and complete
@@ -287,6 +313,10 @@ class Walk:
             if g is not None:
                 self.guards[g[0]] = g[1]
                 return
+            if self.is_tainted(s.test):
+                if mentions(s.test, m):
+                    self.simple(s.test)      # gets evaluated by the test itself belong to the prefix
+                return self.stop(False)      # control flow depends on peer data
             if not (mentions(s.test, m) or self.touches(s.body) or self.touches(s.orelse)):
                 return                       # state guard: transparent
             if mentions(s.test, m):
@@ -296,6 +326,8 @@ class Walk:
             if not (mentions(s.iter, m) or self.touches(s.body)) and not (
                     isinstance(s.iter, ast.Call) and isinstance(s.iter.func, ast.Name) and s.iter.func.id == "range"
                     and s.iter.args and isinstance(s.iter.args[0], ast.Name) and s.iter.args[0].id in self.bound):
+                if self.is_tainted(s.iter) or any(self.is_tainted(x) for x in ast.walk(s) if isinstance(x, (ast.If, ast.While))):
+                    return self.stop(False)
                 return
             it = s.iter
             if not (isinstance(it, ast.Call) and isinstance(it.func, ast.Name) and it.func.id == "range"
@@ -320,6 +352,7 @@ class Walk:
             if sub.stopped or not sub.complete or any(i[0] != "get" for i in sub.items):
                 raise Fail("%s: loop body over a peer count is not straight-line (line %d)" % (self.where, s.lineno))
             self.items.append(("repeat", [i[1] for i in sub.items], guard))
+            self.loops_ok.add(id(s))
             return
         if isinstance(s, (ast.While, ast.Try, ast.With)):
             if isinstance(s, ast.While):
@@ -329,7 +362,7 @@ class Walk:
                     or any(self.touches(h.body) for h in s.handlers)
             else:
                 t = self.touches(s.body)
-            if t:
+            if t or any(self.is_tainted(x.test) for x in ast.walk(s) if isinstance(x, (ast.If, ast.While))):
                 return self.stop(False)
             return
         if isinstance(s, (ast.Return, ast.Raise)):
@@ -344,6 +377,7 @@ class Walk:
             if mentions(s.value, m):
                 self.simple(s.value)
             return self.stop(True)           # m no longer the peer message
+        self.taint_targets(s)
         if not mentions(s, m):
             return
         before = len(self.items)
@@ -359,6 +393,27 @@ class Walk:
     def run(self):
         self.block(self.fn.body)
         return self
+
+    def check_loops(self):
+        """Fail closed on any loop that reads the peer message and was not turned into an IRepeat:
+        it would silently become part of the unmodelled remainder, whose termination the theorem assumes."""
+        m = self.m
+        stores = [x.lineno for x in ast.walk(self.fn)
+                  if isinstance(x, ast.Name) and x.id == m and isinstance(x.ctx, ast.Store)]
+        for n in ast.walk(self.fn):
+            if isinstance(n, (ast.For, ast.While)) and id(n) not in self.loops_ok:
+                if any(ln <= n.end_lineno for ln in stores):
+                    continue            # m was rebound before / inside the loop: not the peer's handler argument
+                if isinstance(n, ast.For) and isinstance(n.target, ast.Name) and n.target.id == m:
+                    continue            # `for m in msgs`: m is no longer the peer message
+                reads = [c for b in n.body for c in ast.walk(b)
+                         if isinstance(c, ast.Call) and isinstance(c.func, ast.Attribute)
+                         and isinstance(c.func.value, ast.Name) and c.func.value.id == m
+                         and (c.func.attr in GETTERS or c.func.attr == "get_bytes")]
+                if reads:
+                    raise Fail("%s: loop at line %d reads the peer message but is not of the recognised form "
+                               "`n = m.get_int(); if n > len(m.get_remainder()) // d: raise SSHException(..); "
+                               "for _ in range(n): <straight-line reads>`" % (self.where, n.lineno))
 
 
 # -- handler inventory ---------------------------------------------------------
@@ -462,10 +517,12 @@ def ladder(tree):
                 return isinstance(x, ast.Call) and isinstance(x.func, ast.Name) and x.func.id == "SSHException"
             okv = builds_ssh(v)
             if isinstance(v, ast.Name):
-                for n in ast.walk(h):
-                    if isinstance(n, ast.Assign) and len(n.targets) == 1 and isinstance(n.targets[0], ast.Name) \
-                            and n.targets[0].id == v.id and builds_ssh(n.value):
-                        okv = True
+                # every binding of that local name inside the clause must be SSHException(...)
+                binds = [n for n in ast.walk(h) if isinstance(n, (ast.Assign, ast.AugAssign, ast.AnnAssign, ast.NamedExpr))
+                         and any(isinstance(x, ast.Name) and x.id == v.id and isinstance(x.ctx, ast.Store)
+                                 for x in ast.walk(n))]
+                okv = bool(binds) and all(isinstance(n, ast.Assign) and len(n.targets) == 1
+                                          and isinstance(n.targets[0], ast.Name) and builds_ssh(n.value) for n in binds)
             if not okv:
                 raise Fail("Transport.run: `except %s` stores something that is neither the caught object nor SSHException(...)" % cls)
             wrapped = True
@@ -476,14 +533,30 @@ def ladder(tree):
     return res
 
 
-def extract(repo):
+def extract(repo, lenient=False):
+    """lenient: used by the harness when the strict extraction failed, so that its oracle can still run."""
     tree = Tree(repo)
     hs = []
+    problems = []
     for i, (msg, k, meth, fn) in enumerate(inventory(tree)):
-        w = Walk(tree, k, fn).run()
+        try:
+            w = Walk(tree, k, fn).run()
+            w.check_loops()
+        except Fail as e:
+            if not lenient:
+                raise
+            problems.append(str(e))
+            continue
         hs.append({"id": i, "msg": msg, "file": k[0], "cls": k[1], "method": meth,
                    "items": w.items, "complete": w.complete})
-    return {"handlers": hs, "ladder": ladder(tree)}
+    try:
+        lad = ladder(tree)
+    except Fail as e:
+        if not lenient:
+            raise
+        problems.append(str(e))
+        lad = None
+    return {"handlers": hs, "ladder": lad, "problems": problems}
 
 
 def _item(i):
@@ -514,6 +587,10 @@ def generate(repo):
     out.append("")
     out.append("Definition run_handler (c : Z * list Z) : list Z := run_parse_in handlers c.")
     out.append("Definition run_ladder (raw : Z) : list Z := run_surface_in ladder raw.")
+    out.append("Definition run_getexc (raw : Z) : list Z := run_getexc_in ladder raw.")
+    out.append("Definition run_start (raw : Z) : list Z := run_start_in ladder raw.")
+    out.append("Definition run_auth (raw : Z) : list Z := run_auth_in ladder raw.")
+    out.append("Definition run_api (c : Z * Z) : list Z := run_api_in ladder c.")
     return {"C38_gen.v": "\n".join(out) + "\n"}
 
 
